@@ -12,7 +12,8 @@ RULE = ("pairs (P1, P2) over disjoint name spaces: P1 from a pool that exits con
         "Three runs per pair: P1, P2, P1;P2. Metamorphic oracle on the implementation: out(P1;P2) = out(P1) ++ out(P2), "
         "same end status, error line shifted by the line count of P1; each run is also compared with the Lean model. "
         "Non-trivial: P1 leaves at least one construct early."
-        ' Multiline-literal pairs: P1 written with literals / comments that span lines (ending in a line break, CR LF) x P2 with a located error.')
+        ' Multiline-literal pairs: P1 written with literals / comments that span lines (ending in a line break, CR LF) x P2 with a located error.'
+        ' Compose-modules pairs: fragments that import the same file under two aliases, two files, a shared helper.')
 ASSUMPTIONS = ["P1 terminates normally by construction (checked: pairs whose P1 fails are skipped and counted)"]
 default_compare = lambda m, i: C.compare_run(m, i, line=True)
 
@@ -115,6 +116,7 @@ def p2_alias_probe(k, records=False):
 
 
 def compose_oracle(case, impl, model):
+    impl, model = impl[-3:], model[-3:]          # set-up lines (files of imported modules) may come first
     a1, a2, a12 = (C.RunAns(x) for x in impl)
     if a1.kind != "ok":
         return []   # P1 must terminate normally for the property to speak
@@ -186,6 +188,24 @@ def cases(rng, tier, stats):
                                   info={"p1": s1, "p2": s2, "p1_lines": s1.count("\n"), "family": "multiline-literal"}))
                 nt += 1
     stats["multiline_literal_pairs"] = nt
+    # fragments that import modules: the same file under two aliases (P1 under one, P2 under the other), two files, a shared helper
+    # reached from both — every import runs the module's top level again under its own alias; P2's alias sees nothing of P1's
+    modsrc = 'নাম গণনা = ০;\nফাং বাড়াও(ধাপ) {\n গণনা = গণনা + ধাপ;\n} ফেরত গণনা;\nদেখাও "মডিউল চালু";\n'
+    helper = 'মডিউল ভিতর = "ganit.pakhi";\nফাং দুইবার(ধাপ) {\n ভিতর/বাড়াও(ধাপ);\n} ফেরত ভিতর/বাড়াও(ধাপ);\n'
+    def frag(alias, path, fn, k):
+        return (f'মডিউল {alias} = "{path}";\nদেখাও {alias}/{fn}({k});\nদেখাও {alias}/{fn}({k} + ১);\n'
+                + (f'দেখাও {alias}/গণনা;\n' if fn == "বাড়াও" else f'দেখাও {alias}/ভিতর/গণনা;\n'))
+    nm = 0
+    for (al1, p1, f1), (al2, p2, f2) in [(("প্রথম", "ganit.pakhi", "বাড়াও"), ("দ্বিতীয়", "ganit.pakhi", "বাড়াও")), (("প্রথম", "ganit.pakhi", "বাড়াও"), ("দ্বিতীয়", "lib/ganit.pakhi", "বাড়াও")),
+                                           (("প্রথম", "helper.pakhi", "দুইবার"), ("দ্বিতীয়", "ganit.pakhi", "বাড়াও")), (("প্রথম", "helper.pakhi", "দুইবার"), ("দ্বিতীয়", "helper.pakhi", "দুইবার")),
+                                           (("ক", "ganit.pakhi", "বাড়াও"), ("কক", "ganit.pakhi", "বাড়াও"))]:
+        for tail in ("", 'নাম প২ত = [১];\nদেখাও প২ত[৫];\n'):
+            s1, s2 = frag(al1, p1, f1, "২"), frag(al2, p2, f2, "৭") + tail
+            lines = ["RESET"] + ["FILE " + C.hx("@ROOT@/" + pth) + " " + C.hx(src) for pth, src in (("ganit.pakhi", modsrc), ("lib/ganit.pakhi", modsrc.replace("চালু", "চালু ২")), ("helper.pakhi", helper))]
+            lines += [run_req(s1), run_req(s2), run_req(s1 + s2)]
+            out.append(C.Case("compose-modules", lines, cmp_run(line=True), compose_oracle, info={"p1": s1, "p2": s2, "p1_lines": s1.count("\n")}))
+            nm += 1
+    stats["module_pairs"] = nm
     # the one residue of P1's control flow that a P2 can observe: an else-less conditional whose branch ran leaves its
     # flag on the interpreter's stack for ever; a P2 that *begins* with a stray `অথবা` (alone: "অথবা without যদি") is then
     # taken for the else of that conditional and skipped.  KNOWN-FINDING C19-stray-else, identified by this input
@@ -196,3 +216,8 @@ def cases(rng, tier, stats):
     stats["pairs"] = len(out)
     stats["pairs_skipped_p1_fails"] = skipped
     return out
+
+
+def fix_root(cases_, root):
+    for c in cases_:
+        c.lines = [l if not l.startswith("FILE ") else "FILE " + C.hx(C.unhx(l.split(" ")[1]).replace("@ROOT@", root)) + " " + l.split(" ")[2] for l in c.lines]
